@@ -120,6 +120,9 @@ fn rec_json(r: &Rec, c: &Clock) -> Value {
         Rec::AggregatePushed { client, delay } => {
             json!({"k": "agg", "c": client, "d": dur_us(*delay, c)})
         }
+        Rec::AggregatePopped { client, delay } => {
+            json!({"k": "aggpop", "c": client, "d": dur_us(*delay, c)})
+        }
         Rec::Exit { reason, iterations, trace_len } => {
             json!({"k": "exit", "reason": reason, "it": iterations, "len": trace_len})
         }
@@ -626,13 +629,13 @@ fn main() {
                     }
                 }
                 if let Some(mf) = mech_out.as_mut() {
-                    // mechanism view: scenarios SimMech models completely (no pps limit, no aggregate delay)
-                    if sc.pps.is_none() && !hook.iter().any(|h| h["k"] == "agg") {
+                    // mechanism view: the records SimMech emits (fired ev act exit agg aggpop recv)
+                    {
                         writeln!(mf, "{}", lines[0]).unwrap();
                         writeln!(mf, "{}", lines[1]).unwrap();
                         for h in hook.iter() {
                             let k = h["k"].as_str().unwrap_or("");
-                            if k == "fired" || k == "ev" || k == "exit" {
+                            if ["fired", "ev", "exit", "agg", "aggpop", "recv"].contains(&k) {
                                 writeln!(mf, "{}", h).unwrap();
                             } else if k == "act" {
                                 let mut a = h.clone();
